@@ -117,6 +117,8 @@ def run(ck):
     run_batch(ck, "failover scenarios (faults, then retries) vs Model.ClientRun.run_ops",
               [G.gen_failover(rnd) for _ in range(500 * scale)])
     O.batch(ck, rnd, 200 * scale, PID)       # overlapping calls, arbitrary interleavings: monitors only (see client_overlap.py)
+    run_batch(ck, "produce with acks=0 whose broker send fails, then the next produce vs Model.ClientRun.run_ops",
+              [G.gen_acks0_history(rnd) for _ in range(150 * scale)])
     run_batch(ck, "coordinator answers that re-address a known node vs Model.ClientRun.run_ops",
               [G.gen_coord_readdress_history(rnd) for _ in range(120 * scale)])
     ck.resolve_soft()
